@@ -102,11 +102,12 @@ func c05Get(ti int, initial bool, ndef int, envDelim bool, nest int, nsDelim int
 		top.SubOptional = true
 		top.Cmds = []*decl.Cmd{{Field: "Sub", Name: "sub", Opts: []*decl.Opt{o}}}
 		sect = "sub"
-	case 6: // ... or to a command two levels down
+	case 6: // ... or to a command three levels down (every traversal of the command tree has to reach it)
 		top.Opts = []*decl.Opt{other}
 		top.SubOptional = true
-		top.Cmds = []*decl.Cmd{{Field: "Sub", Name: "sub", SubOptional: true, Cmds: []*decl.Cmd{{Field: "Deep", Name: "deep", Opts: []*decl.Opt{o}}}}}
-		sect = "sub.deep"
+		top.Cmds = []*decl.Cmd{{Field: "Sub", Name: "sub", SubOptional: true, Cmds: []*decl.Cmd{{Field: "Deep", Name: "deep", SubOptional: true,
+			Cmds: []*decl.Cmd{{Field: "Deeper", Name: "deeper", Opts: []*decl.Opt{o}}}}}}}
+		sect = "sub.deep.deeper"
 	}
 	switch cfgPos {
 	case 1:
@@ -223,7 +224,7 @@ func init() {
 			argv = append([]string{"sub"}, argv...)
 		}
 		if nest == 6 && ncli > 0 {
-			argv = append([]string{"sub", "deep"}, argv...)
+			argv = append([]string{"sub", "deep", "deeper"}, argv...)
 		}
 		if nest >= 5 {
 			c.Hit("option-of-a-command")
@@ -452,7 +453,7 @@ func init() {
 		DevBound:   func(bool) int { return 2 },
 		Rule: "13 option types (a string whose environment and default values look like options, a string whose default tag is empty, a []string whose first default tag is empty, string, int, bool, *int, []string, []int, map[string]int, Unmarshaler, map[string]string with one key in every source, a slice-kinded Unmarshaler that appends) x initial value present/absent x 0..2 default tags x environment {unset, one value, two values with env-delim, set-but-empty, three pieces with an empty middle one (for []string), three pieces with a malformed middle one (for []int: the parse must fail)} " +
 			"x 0..2 INI entries x 0..2 command-line occurrences x 10 histories (CLI only; INI then CLI; as-defaults INI then CLI; CLI then as-defaults INI; as-defaults, CLI, as-defaults; as-defaults read from a callback option given before / after the occurrences; " +
-			"from a callback option's default declared first / last; two as-defaults reads then CLI) x env-namespace nesting {none, outer, outer+inner, outer only around a plain inner group, inner only inside a plain outer group, option declared on a subcommand, or on a command two levels down, that the command line selects only when the option occurs} x EnvNamespaceDelimiter {_, empty, __} (nesting/delimiter deviation-bounded); one more deviation uses a single IniParser object for all reads of a history; another sets an env-namespace on the parser itself; another builds the parser through the API and adds the option's group only after a first ParseArgs; a second []string option initialised from the same backing array must keep its value; " +
+			"from a callback option's default declared first / last; two as-defaults reads then CLI) x env-namespace nesting {none, outer, outer+inner, outer only around a plain inner group, inner only inside a plain outer group, option declared on a subcommand, or on a command three levels down, that the command line selects only when the option occurs} x EnvNamespaceDelimiter {_, empty, __} (nesting/delimiter deviation-bounded); one more deviation uses a single IniParser object for all reads of a history; another sets an env-namespace on the parser itself; another builds the parser through the API and adds the option's group only after a first ParseArgs; a second []string option initialised from the same backing array must keep its value; " +
 			"the history machine per option is {untouched, defaulted, ini, explicit}; oracle = precedence function CLI > INI > env > default tags > initial, multi-valued options holding exactly the winner's values",
 		Assumptions:  []string{"plain-mode INI read after a command-line parse is not ranked by the statement and is not exercised", "an empty environment value for a non-string option is skipped"},
 		RequiredHits: []string{"winner:cli", "winner:ini", "winner:env", "winner:default", "winner:initial", "history:CD", "history:DCD", "history:config-flag-after", "history:config-default-last", "option-of-a-command", "group-added-after-a-first-parse"},
